@@ -416,8 +416,11 @@ class Report:
         ev = dict(property_id=self.prop, tier=self.tier, seed=self.seed, level=level, coverage=cov,
                   assumptions=self.assumptions, wall_s=round(time.time() - self.t0, 2),
                   violations=len(grouped), known_findings_seen=len(seen_known), notes=self.notes)
-        os.makedirs(os.path.join(VERIF, "evidence"), exist_ok=True)
-        json.dump(ev, open(os.path.join(VERIF, "evidence", "%s.json" % self.prop), "w"), indent=1, default=str)
+        # evidence/ records runs against /repo itself; a run against another tree (KA_REPO=..., used for
+        # seeded changes) writes its record under build/ instead
+        evdir = os.path.join(VERIF, "evidence") if os.path.realpath(REPO) == "/repo" else os.path.join(BUILD, "evidence-other-tree")
+        os.makedirs(evdir, exist_ok=True)
+        json.dump(ev, open(os.path.join(evdir, "%s.json" % self.prop), "w"), indent=1, default=str)
         return rc
 
 
